@@ -43,6 +43,9 @@ var c09Shapes = []c09Shape{
 	// loops that spend their time in recovered Go panics: every recovery re-enters the interpreter loop
 	{"recovered-host-panic-loop", "for { try { boom() } catch e { } }\n", false, nil, true},
 	{"recovered-operator-panic-loop", "z := 0\nfor { try { z = 1 % z } catch e { z = 0 } }\n", false, nil, true},
+	// a function on a child VM that keeps calling back (grandchild VMs taken from and given back to the root's pool all
+	// the time) and shrugs off every error of those calls: only its own VM's flag ends it
+	{"child-retries-grandchildren", "g := func() { return 1 }\nf := func() { for { try { call(g) } catch e { } } }\ncall(f)\n", false, nil, false},
 	{"recovered-panic-in-child-loop", "f := func() { boom() }\nfor { try { call(f) } catch e { } }\n", false, nil, true},
 }
 
@@ -177,6 +180,18 @@ func c09VM(rc *sim.RunCtx, shapeIdx int, pooledAll bool, pl *c09Placement) {
 	if shapeIdx < 0 {
 		shapeIdx = t.Draw(len(c09Shapes))
 	}
+	// 1 random run in 30: the pool locks may be contended for real (see Sched.Contend); one Abort, placed while the
+	// runner holds a pool lock for the n-th time, on a shape whose callbacks call back themselves
+	contend := pl == nil && t.Bool(1, 30)
+	if contend {
+		nested := []string{"child-retries-grandchildren", "child-of-child", "host-loop-nested", "strings-map", "child-catch-retry", "callrep-second-call-loops"}
+		want := nested[t.Pick(3, 1, 1, 1, 1, 1)]
+		for i := range c09Shapes {
+			if c09Shapes[i].name == want {
+				shapeIdx = i
+			}
+		}
+	}
 	shape := c09Shapes[shapeIdx]
 	ws := &sim.WorldSpec{Name: "w"}
 	for i := 0; i < 64; i++ {
@@ -188,9 +203,13 @@ func c09VM(rc *sim.RunCtx, shapeIdx int, pooledAll bool, pl *c09Placement) {
 		ws.Repeat = append(ws.Repeat, 0)
 	}
 	nAborters, nAborts := 1, 1
-	if pl == nil {
+	if pl == nil && !contend {
 		nAborters = 1 + t.Draw(2)
 		nAborts = 1 + t.Draw(3)
+	}
+	holdTarget, holds := 0, 0
+	if contend {
+		holdTarget = 1 + t.Draw(12)
 	}
 	mm := newModuleMap(nil)
 	bc, err := compile(sim.PreludeCall+"global (callmany, callall, boom)\n"+shape.src, mm, false, 0)
@@ -206,10 +225,7 @@ func c09VM(rc *sim.RunCtx, shapeIdx int, pooledAll bool, pl *c09Placement) {
 	}
 
 	s := sim.NewSched(t)
-	if pl == nil && t.Bool(1, 40) {
-		// the pool locks may be contended for real in this run (see Sched.Contend)
-		s.Contend = true
-	}
+	s.Contend = contend
 	pool := &sim.SimPool{T: t}
 	if pl != nil {
 		pool.Always = 2
@@ -274,11 +290,21 @@ func c09VM(rc *sim.RunCtx, shapeIdx int, pooledAll bool, pl *c09Placement) {
 	followupPhase := false
 	s.Enabled = func(s *sim.Sched, th *sim.SimThread) bool {
 		if th.Point() == sim.PStartWait {
+			if contend {
+				// while the runner is parked inside a pool critical section for the n-th time (or, should it never get
+				// there, after a while)
+				return (runner.Point() == ugo.VerifPoolLocked && holds >= holdTarget) || runner.Loops() > 4000 || runner.Done()
+			}
 			// "once Run has been entered": the VM has executed its first instruction
 			return started || runner.Loops() > 0
 		}
 		if th == runner && th.Point() == sim.PUser {
 			return abortersDone // the follow-up run starts after the last Abort returned
+		}
+		if contend && th == runner && th.Point() == ugo.VerifPoolLocked && aborters[0].Point() != sim.PStartWait && !aborters[0].Done() && s.Contended == 0 {
+			// the runner stays parked inside its critical section until the Abort that was started there has met the
+			// lock (or has returned without needing it)
+			return false
 		}
 		return true
 	}
@@ -289,6 +315,9 @@ func c09VM(rc *sim.RunCtx, shapeIdx int, pooledAll bool, pl *c09Placement) {
 				started = true
 			} else {
 				lastRunnerPoint = point
+			}
+			if point == ugo.VerifPoolLocked {
+				holds++
 			}
 			if point == sim.PUser {
 				followupPhase = true
